@@ -34,7 +34,7 @@ fn filter(leaf: &Leaf) -> BoxedStrategy<Filter> {
 	let zooms = (proptest::option::weighted(0.7, prop_oneof![3 => zlo.saturating_sub(2)..=zhi.saturating_add(2).min(40), 1 => 0u8..=40]), proptest::option::weighted(0.7, prop_oneof![3 => zlo.saturating_sub(2)..=zhi.saturating_add(2).min(40), 1 => 0u8..=40]))
 		.prop_map(|(a, b)| Filter::Zoom(a, b));
 	let (z, b) = boxes.iter().next().map(|(z, b)| (*z, *b)).unwrap_or((0, (0, 0, 0, 0)));
-	let near = (0u32..=8, 0u32..=8, 0u32..=8, 0u32..=8, 0u8..4, -0.4f64..0.4, -0.4f64..0.4).prop_map(move |(a, bb, c, d, kind, fx, fy)| {
+	let near = (0u32..=8, 0u32..=8, 0u32..=8, 0u32..=8, 0u8..7, -0.4f64..0.4, -0.4f64..0.4).prop_map(move |(a, bb, c, d, kind, fx, fy)| {
 		use vt::model::georef as g;
 		// tile-space rectangle around/inside the coverage, then to degrees
 		let x0 = (b.0 as f64 + a as f64 - 3.0).max(0.0);
@@ -44,12 +44,18 @@ fn filter(leaf: &Leaf) -> BoxedStrategy<Filter> {
 		let n = Coord::size(z) as f64;
 		let (x0, y0, x1, y1) = (x0.min(n), y0.min(n), x1.min(n), y1.min(n));
 		let (fx, fy) = match kind {
-			0 => (0.0, 0.0), // exactly on tile edges
-			_ => (fx, fy),   // cutting through tiles
+			0 | 4 | 5 => (0.0, 0.0), // exactly on tile edges
+			_ => (fx, fy),           // cutting through tiles
 		};
 		let (x0, x1) = ((x0 + fx).clamp(0.0, n), (x1 + fx).clamp(0.0, n));
 		let (y0, y1) = ((y0 + fy).clamp(0.0, n), (y1 + fy).clamp(0.0, n));
-		let (x1, y1) = if kind == 3 { (x0, y0) } else { (x1.max(x0), y1.max(y0)) }; // degenerate point
+		// degenerate: a point (3), a vertical (4, 6) or horizontal (5) line – on a tile edge (4, 5) or inside tiles (6)
+		let (x1, y1) = match kind {
+			3 => (x0, y0),
+			4 | 6 => (x0, y1.max(y0)),
+			5 => (x1.max(x0), y0),
+			_ => (x1.max(x0), y1.max(y0)),
+		};
 		Filter::Bbox([g::lon(x0, z).clamp(-180.0, 180.0), g::lat(y1, z).clamp(-90.0, 90.0), g::lon(x1, z).clamp(-180.0, 180.0), g::lat(y0, z).clamp(-90.0, 90.0)])
 	});
 	// boxes spanning (nearly) all longitudes whose latitude limits lie between 84 and 90 degrees:
@@ -114,6 +120,7 @@ fn oracle(case: &Case, obs: &mut Obs) -> Result<(), Fail> {
 			}
 		}
 	};
+	let mut returned: std::collections::BTreeSet<Coord> = Default::default();
 	for c in &probes {
 		let got = match source.lookup(c) {
 			Ok(Ok(g)) => g,
@@ -124,8 +131,35 @@ fn oracle(case: &Case, obs: &mut Obs) -> Result<(), Fail> {
 		if set.tiles.contains_key(c) {
 			if got.is_some() {
 				kept += 1;
+				returned.insert(*c);
 			} else {
 				dropped += 1;
+			}
+		}
+	}
+	// The filters select a BOX per level (a column interval times a row interval). Tiles on the
+	// guard band of one axis are don't-care one by one, but not independently: if a tile of
+	// column x passes, column x is in the interval, so every source tile of column x whose row is
+	// definitely inside must pass as well (and likewise for rows).
+	let bboxes: Vec<&[f64; 4]> = case.filters.iter().filter_map(|f| if let Filter::Bbox(b) = f { Some(b) } else { None }).collect();
+	if !bboxes.is_empty() {
+		use vt::model::georef as g;
+		let cls = |c: &Coord| -> (bool, bool) {
+			// (column definitely inside every box, row definitely inside every box)
+			let x_in = bboxes.iter().all(|b| g::classify(c.x, g::tx(b[0], c.z), g::tx(b[2], c.z), c.z) == g::Cls::In);
+			let y_in = bboxes.iter().all(|b| g::classify(c.y, g::ty(b[3], c.z), g::ty(b[1], c.z), c.z) == g::Cls::In);
+			(x_in, y_in)
+		};
+		let zoom_ok = |z: u8| case.filters.iter().all(|f| if let Filter::Zoom(a, b) = f { a.map(|m| z >= m).unwrap_or(true) && b.map(|m| z <= m).unwrap_or(true) } else { true });
+		let cols: std::collections::BTreeSet<(u8, u32)> = returned.iter().map(|c| (c.z, c.x)).collect();
+		let rows: std::collections::BTreeSet<(u8, u32)> = returned.iter().map(|c| (c.z, c.y)).collect();
+		for c in probes.iter().filter(|c| set.tiles.get(c).map(|b| !b.is_empty()).unwrap_or(false) && zoom_ok(c.z) && !returned.contains(c)) {
+			let (x_in, y_in) = cls(c);
+			if y_in && cols.contains(&(c.z, c.x)) {
+				fail!("filter:selection-is-not-a-box", "lookup: {c} is not returned although another tile of column {} passes the filter and row {} is definitely inside every box; filters {:?}", c.x, c.y, case.filters);
+			}
+			if x_in && rows.contains(&(c.z, c.y)) {
+				fail!("filter:selection-is-not-a-box", "lookup: {c} is not returned although another tile of row {} passes the filter and column {} is definitely inside every box; filters {:?}", c.y, c.x, case.filters);
 			}
 		}
 	}
@@ -259,7 +293,7 @@ fn main() {
 	let mut check = Check::from_args(
 		"C09",
 		"exploration",
-		"a leaf source (in-memory or container fixture of any format) under a chain of 1-3 filters: filter_zoom with min/max in 0..=40 incl. min > max and open ends, filter_bbox with geographic boxes derived from the source's coverage in tile space (on tile edges, cutting through tiles, degenerate points, containing / disjoint), boxes over all longitudes with latitude limits between 84 and 90 degrees, or arbitrary; oracle: lookup(c) and streams over generated boxes return the source's stored bytes exactly when c is in every zoom range and definitely inside every bbox by the independent Mercator reference (tiles on the 1e-6 guard band are don't-care), nothing otherwise; second phase: invalid arguments (non-numeric, u8 overflow, negative, list for scalar, arity != 4, west > east, south > north, out of +-180/+-90, NaN / infinities, missing; directly behind the source or behind a valid stage that keeps everything, something or nothing) must make operation_from_vpl return Err (not Ok, not panic), valid controls must build; non-trivial = chain that removes some but not all tiles of the source",
+		"a leaf source (in-memory or container fixture of any format) under a chain of 1-3 filters: filter_zoom with min/max in 0..=40 incl. min > max and open ends, filter_bbox with geographic boxes derived from the source's coverage in tile space (on tile edges, cutting through tiles, degenerate points and lines (on tile edges and inside tiles), containing / disjoint), boxes over all longitudes with latitude limits between 84 and 90 degrees, or arbitrary; oracle: lookup(c) and streams over generated boxes return the source's stored bytes exactly when c is in every zoom range and definitely inside every bbox by the independent Mercator reference (tiles on the 1e-6 guard band are don't-care), nothing otherwise, and the tiles that pass form a box per level (a tile on the guard band of one axis passes iff its column / row passes); second phase: invalid arguments (non-numeric, u8 overflow, negative, list for scalar, arity != 4, west > east, south > north, out of +-180/+-90, NaN / infinities, missing; directly behind the source or behind a valid stage that keeps everything, something or nothing) must make operation_from_vpl return Err (not Ok, not panic), valid controls must build; non-trivial = chain that removes some but not all tiles of the source",
 	);
 	vt::engine::watchdog(3600);
 	vt::sources::MBTILES_THINNING.store(25, std::sync::atomic::Ordering::Relaxed);
